@@ -68,6 +68,18 @@ def mutate(text, rnd, nmut=None):
     words = [i for i, x in enumerate(t) if not x.isspace()]
     if not words:
         return rnd.choice(GARBAGE)
+    if 0.42 <= kind < 0.47:
+        # section insertion: a (possibly misplaced, possibly dangling) extra section or record
+        ids = [t[i] for i in words if re.match(r"[A-Za-z_][A-Za-z0-9_.]*$", t[i]) and t[i] not in KEYWORDS] or ["zz"]
+        nm = rnd.choice(ids + ["nosuchname"])
+        sec = rnd.choice([["REFROW", " " + nm], ["OBJSENSE", " " + rnd.choice(["MAX", "MIN", "MAXIMUM"])], ["OBJNAME", " " + nm],
+                          ["RANGES", " RNG " + nm + " 5"], ["BOUNDS", " " + rnd.choice(["UP", "LO", "FX", "FR", "MI", "PL", "BV", "LI", "UI"]) + " BND " + nm + " 3"],
+                          [" S1 SOS1 'MARKER' 'SOSORG'", " " + nm + " " + rnd.choice(ids) + " 1", " SOS1 'MARKER' 'SOSEND'"],
+                          ["RHS", " RHS " + nm + " 7"], ["Bounds", " " + nm + " <= 4"], ["Integer", " " + nm], ["Semi-continuous", " " + nm],
+                          ["SOS", " s1: " + nm + ":1 " + rnd.choice(ids) + ":2"]])
+        L = text.split("\n")
+        pos = rnd.randrange(len(L) + 1)
+        return "\n".join(L[:pos] + sec + L[pos:])
     if kind < 0.42:
         # cross-reference mutation: an identifier is replaced by another identifier of the same file (an objective name that
         # names a constraint row, a range or bound on the objective row, a row name used as a column, a repeated definition ...)
@@ -111,3 +123,88 @@ def mutate(text, rnd, nmut=None):
 
 def to_bytes(s):
     return s.encode("latin-1", errors="replace") if isinstance(s, str) else s
+
+
+def semantic_error(text, fmt, rnd):
+    """one corruption that is lexically and syntactically fine and is only found out by the readers' late validation passes
+    (after the whole file has been parsed and most structures have been allocated): the early-exit paths of C11/C18/C20."""
+    L = text.split("\n")
+    ids = [w for w in re.findall(r"[A-Za-z_][A-Za-z0-9_.]*", text) if w not in KEYWORDS and len(w) > 1] or ["zz"]
+    up = [l.strip().upper() for l in L]
+
+    def sec(name):
+        return up.index(name) if name in up else None
+
+    if fmt == "MPS":
+        rows_at, cols_at, end_at = sec("ROWS"), sec("COLUMNS"), sec("ENDATA")
+        if rows_at is None or cols_at is None or end_at is None:
+            return text
+        rownames = [l.split()[1] for l in L[rows_at + 1:cols_at] if len(l.split()) >= 2]
+        consrows = [l.split()[1] for l in L[rows_at + 1:cols_at] if len(l.split()) >= 2 and l.split()[0].upper() in ("L", "G", "E")]
+        colnames = list(dict.fromkeys(l.split()[0] for l in L[cols_at + 1:end_at] if l.startswith(" ") and len(l.split()) >= 3 and "'MARKER'" not in l))
+        choice = rnd.choice(["refrow-unknown", "refrow-col", "objname-ranged", "lo>up", "sos-int", "sos-dup-weight", "range-unknown", "rhs-unknown",
+                             "bound-unknown", "col-twice", "row-twice", "neg-up", "range-on-n"])
+        ins = lambda at, lines: L[:at] + lines + L[at:]
+        if choice == "refrow-unknown":
+            return "\n".join(ins(rows_at, ["REFROW", " nosuchrow"]))
+        if choice == "refrow-col" and colnames:
+            return "\n".join(ins(rows_at, ["REFROW", " " + rnd.choice(colnames)]))
+        if choice == "objname-ranged" and consrows:
+            r = rnd.choice(consrows)
+            out = [l for l in L if l.strip().upper() != "OBJNAME"]
+            out = ins(up.index("ROWS") if "ROWS" in [x.strip().upper() for x in out] else 1, [])
+            k = [x.strip().upper() for x in out].index("ROWS")
+            out = out[:k] + ["OBJNAME", " " + r] + out[k:]
+            e = [x.strip().upper() for x in out].index("ENDATA")
+            return "\n".join(out[:e] + ["RANGES", " RNGX " + r + " 3"] + out[e:])
+        if choice == "lo>up" and colnames:
+            c = rnd.choice(colnames)
+            return "\n".join(ins(end_at, ["BOUNDS", " LO BNDX " + c + " 5", " UP BNDX " + c + " 1"]))
+        if choice in ("sos-int", "sos-dup-weight") and colnames and consrows:
+            c = rnd.choice(colnames)
+            body = [l for l in L[cols_at + 1:end_at] if l.startswith(" ") and l.split() and l.split()[0] == c]
+            rest = [l for l in L[cols_at + 1:end_at] if not (l.startswith(" ") and l.split() and l.split()[0] == c)]
+            if choice == "sos-int":
+                blk = [" MI1 'MARKER' 'INTORG'", " S1 SS9 'MARKER' 'SOSORG'"] + body + [" SS9 'MARKER' 'SOSEND'", " MI2 'MARKER' 'INTEND'"]
+                return "\n".join(L[:cols_at + 1] + blk + rest)
+            r = rnd.choice(consrows)
+            blk = [" S2 SS9 'MARKER' 'SOSORG'", " %s %s 2" % (c, r), " zzdup %s 2" % r, " SS9 'MARKER' 'SOSEND'"]
+            rest2 = [l for l in rest]
+            return "\n".join(L[:rows_at] + ["REFROW", " " + r] + L[rows_at:cols_at + 1] + blk + rest2)
+        if choice == "range-unknown":
+            return "\n".join(ins(end_at, ["RANGES", " RNGX nosuchrow 3"]))
+        if choice == "rhs-unknown":
+            return "\n".join(ins(end_at, ["RHS", " RHSX nosuchrow 3"]))
+        if choice == "bound-unknown":
+            return "\n".join(ins(end_at, ["BOUNDS", " UP BNDX nosuchcol 3"]))
+        if choice == "col-twice" and colnames and consrows:
+            return "\n".join(ins(end_at if sec("RHS") is None else sec("RHS"), [" %s %s 1" % (colnames[0], rnd.choice(consrows))]))
+        if choice == "row-twice" and rownames:
+            return "\n".join(ins(cols_at, [" L " + rnd.choice(rownames)]))
+        if choice == "neg-up" and colnames:
+            return "\n".join(ins(end_at, ["BOUNDS", " UP BNDX " + rnd.choice(colnames) + " -3"]))
+        if choice == "range-on-n":
+            nrow = [l.split()[1] for l in L[rows_at + 1:cols_at] if len(l.split()) >= 2 and l.split()[0].upper() == "N"]
+            if nrow:
+                return "\n".join(ins(end_at, ["RANGES", " RNGX " + nrow[0] + " 3"]))
+        return text
+    # LP
+    end_at = max((i for i, l in enumerate(up) if l == "END"), default=len(L))
+    nm = rnd.choice(ids)
+    choice = rnd.choice(["lo>up", "int-unknown", "row-twice", "bound-unknown", "free-then-bound", "empty-st", "obj-only-const"])
+    if choice == "lo>up":
+        return "\n".join(L[:end_at] + ["Bounds", " 5 <= %s <= 1" % nm] + L[end_at:])
+    if choice == "int-unknown":
+        return "\n".join(L[:end_at] + ["Integer", " nosuchvar"] + L[end_at:])
+    if choice == "row-twice":
+        st = next((i for i, l in enumerate(up) if l in ("SUBJECT TO", "ST", "SUCH THAT", "S.T.") or l.startswith("SUBJECT")), None)
+        if st is not None:
+            return "\n".join(L[:st + 1] + [" dupr: %s >= 1" % nm, " dupr: %s <= 9" % nm] + L[st + 1:])
+    if choice == "bound-unknown":
+        return "\n".join(L[:end_at] + ["Bounds", " nosuchvar <= 4"] + L[end_at:])
+    if choice == "free-then-bound":
+        return "\n".join(L[:end_at] + ["Bounds", " %s free" % nm, " %s >= 2" % nm, " %s <= 1" % nm] + L[end_at:])
+    if choice == "empty-st":
+        return "\n".join(l for l in L if ":" not in l and "=" not in l)
+    return text + "\nEnd\n"
+
